@@ -232,7 +232,8 @@ def check_state(st, model, orig, base_digest):
 
 class Harness:
     def __init__(self, exe, env=None):
-        self.p = subprocess.Popen([exe], stdin=subprocess.PIPE, stdout=subprocess.PIPE, text=True, bufsize=1, env=env)
+        # latin-1: a damaged collection may print arbitrary bytes as crystal names - that must end as a state mismatch, not as a decoding error
+        self.p = subprocess.Popen([exe], stdin=subprocess.PIPE, stdout=subprocess.PIPE, text=True, bufsize=1, env=env, encoding="latin-1")
 
     def expand(self, prefix, cands):
         self.p.stdin.write("EXPAND " + " ".join(prefix) + " ; " + " ".join(cands) + "\n"); self.p.stdin.flush()
@@ -305,7 +306,10 @@ def explore(ctx, exe, roots, alphabet, max_depth, san_exe=None, nworkers=16, lab
             if l.startswith("PREFIX CRASH") or l.startswith("PREFIX EXIT"):
                 viol(hist, None, "crash", "replaying the history crashed: %s" % l); return []
             if l.startswith("STATE"):
-                pst = parse_state(l[5:])
+                try:
+                    pst = parse_state(l[5:])
+                except Exception:
+                    viol(hist, None, "state-unreadable", "after replaying the history the collection cannot be read back in a well-formed way (damaged entries): %r" % l[:200]); return []
         if pst is None:
             return []
         for l in sanlines:
@@ -327,7 +331,10 @@ def explore(ctx, exe, roots, alphabet, max_depth, san_exe=None, nworkers=16, lab
             if not mres:
                 viol(hist, op, "harness", "unparsable: %s" % parts[2][:100]); continue
             rv, err = int(mres.group(1)), int(mres.group(2))
-            st = parse_state(mres.group(4))
+            try:
+                st = parse_state(mres.group(4))
+            except Exception:
+                viol(hist, op, "state-unreadable", "after %s the collection cannot be read back in a well-formed way (damaged entries / memory): %r" % (op, mres.group(4)[:200])); continue
             m = m0.clone()
             en, erv, eerr = m.apply(op, orig)
             outcomes.add((op[0], rv, err >= 0))
